@@ -160,7 +160,7 @@ def pipeline(tier, rep, calibrate=True):
     scripts = model(tier, rep)
     bins = build_drivers(tier)
     traces, st = execute(tier, scripts, bins, "etl")
-    merged = concat(traces, os.path.join(vlib.workdir("traces"), "vector_etl_merged"), 8)
+    merged = concat(traces, os.path.join(vlib.workdir("traces"), "vector_etl_merged"), 8 if tier == "quick" else 14)
     tv = vlib.tv_parallel("VectorTrace.tla", "VectorTrace.cfg", merged, "vector_tv_etl")
     rep.add_tv("Vector", tv, st["scripts"] + st["histories"])
     rep.cov["modules"]["Vector"].update({"not_drivable": st["unsupported"]})
@@ -168,7 +168,7 @@ def pipeline(tier, rep, calibrate=True):
         rep.notes.append({"live_count_imbalance": st["leaks"]})
     if calibrate:
         ctr, cst = execute(tier, scripts, bins, "std")
-        cm = concat(ctr, os.path.join(vlib.workdir("traces"), "vector_std_merged"), 8)
+        cm = concat(ctr, os.path.join(vlib.workdir("traces"), "vector_std_merged"), 8 if tier == "quick" else 14)
         ctv = vlib.tv_parallel("VectorTrace.tla", "VectorTrace.cfg", cm, "vector_tv_std")
         if ctv["deviations"]:
             d = ctv["deviations"][0]
